@@ -328,11 +328,15 @@ def same_report(a, b):
     return bool(np.all(np.abs(va - vb) <= EPS * scale))
 
 
-def judge(ctx, s, ops, variant=(1, 1, 1)):
+def judge(ctx, s, ops, variant=(1, 1, 1), impl_runner=None, inp_extra=None, sup_override=None):
+    """`impl_runner(ux) -> (grid, ctor, reports)` replaces "build the grid from `s` and read `ops`"
+    (used for the segment after a construct_face_centers() call, where `s` is the re-based source)."""
     import uxarray as ux
 
     d, rng = ctx.driver, ctx.rng
     inp = dict(source=s.to_json(), ops=[int(o) for o in ops], history=[OPNAME[o] for o in ops])
+    if inp_extra:
+        inp.update(inp_extra)
     key = (s.tag, s.faces, s.prov, s.conv, tuple(ops),
            [None if s.ll[k] is None else s.ll[k][0].tolist() for k in KINDS])
     small = len(s.faces) <= 2
@@ -347,9 +351,12 @@ def judge(ctx, s, ops, variant=(1, 1, 1)):
         ctx.hit("history-with-normalize")
     # ---- the implementation ----
     try:
-        g, ctor = build_grid(ux, s)
+        if impl_runner is not None:
+            g, ctor, impl = impl_runner(ux)
+        else:
+            g, ctor = build_grid(ux, s)
+            impl = [read(g, rng, o) for o in ops]
         ctx.hit("ctor=" + ctor)
-        impl = [read(g, rng, o) for o in ops]
         edges = [(int(a), int(b)) for a, b in np.asarray(g.edge_node_connectivity.values).reshape(-1, 2)]
     except Exception as e:
         ctx.fail(f"C04/raises/{type(e).__name__}", f"coordinate access raises {type(e).__name__}: {e}", inp)
@@ -402,7 +409,7 @@ def judge(ctx, s, ops, variant=(1, 1, 1)):
         raise RuntimeError("generator produced an invalid connectivity")
     model = dec_reports(line)
     # ---- the Lean specification on the implementation's reports ----
-    sup = [int(s.xyz[k] is not None) for k in KINDS]
+    sup = sup_override if sup_override is not None else [int(s.xyz[k] is not None) for k in KINDS]
     tr = " ".join(enc_cols([truth[k][:, 0], truth[k][:, 1], truth[k][:, 2]]) for k in KINDS)
     verdict = d.ask("C04.spec", *sup, tr, len(impl), " ".join(enc_report(r) for r in impl))
     obs = dict(reports=[rep_json(r) for r in impl], edge_node_connectivity=edges if small else "…")
@@ -442,6 +449,94 @@ def judge(ctx, s, ops, variant=(1, 1, 1)):
             i = max(j for j, oo in enumerate(ops) if oo == o)
             if i > after and np.any(np.abs(np.sum(np.stack(r[2], 1) ** 2, axis=1) - 1) > 1e-6):
                 ctx.hit(f"note:{k}-xyz-not-unit-after-normalize()")
+
+
+# --------------------------------------------------------------------------------------
+# construct_face_centers(method=...) inside a history
+# --------------------------------------------------------------------------------------
+
+METHODS = ["cartesian average", "welzl"]
+
+
+def judge_construct(ctx, s, pre, method, post):
+    """pre-reads, `Grid.construct_face_centers(method)`, post-reads on ONE grid.
+
+    The call is not an operation of the Lean state machine; it is handled here as a RE-BASING of the
+    source (tested, not proved): afterwards the grid stores both face representations, and
+      * "welzl": they denote the Welzl centre points the call itself reports (not modelled — judged:
+        range, unit length, lon/lat-vs-xyz agreement in every later read, and the centre lies within
+        the cap around the corner mean that contains all corners);
+      * "cartesian average": if Cartesian face centres were stored (supplied, or any face centre read
+        before) lon/lat are re-derived from them (same points as before); otherwise the centres become
+        the normalised corner means, overriding supplied lon/lat (as documented).
+    Segment 1 (pre) and segment 2 (the stored lon/lat right after the call + post) are each judged by
+    the Lean spec and compared with the Lean model started from the (re-based) source."""
+    rng = ctx.rng
+    box = {}
+    extra = dict(construct=dict(source=s.to_json(), pre=list(pre), method=method, post=list(post)))
+
+    def runner1(ux):
+        g, ctor = build_grid(ux, s)
+        box["g"] = g
+        return g, ctor, [read(g, rng, o) for o in pre]
+
+    ctx.hit("construct:" + method)
+    ctx.hit("construct:pre-reads=%d" % len(pre))
+    if pre:
+        judge(ctx, s, pre, impl_runner=runner1, inp_extra=extra)
+    else:
+        import uxarray as ux
+
+        box["g"] = build_grid(ux, s)[0]
+    g = box.get("g")
+    if g is None:
+        return
+    inp = dict(extra, source=s.to_json(), ops=list(pre), history=[OPNAME[o] for o in pre] + [f"construct_face_centers({method})"])
+    try:
+        g.construct_face_centers(method=method)
+        W = [np.array(g.face_lon.values, float).copy(), np.array(g.face_lat.values, float).copy()]
+        impl2 = [("ll", "face", W)] + [read(g, rng, o) for o in post]
+    except Exception as e:
+        ctx.fail(f"C04/raises/construct_face_centers({method})/{type(e).__name__}",
+                 f"construct_face_centers({method}) raises {type(e).__name__}: {e}", inp)
+        return
+    # Cartesian face centres are stored iff supplied, or face_x/y/z was read, or face_lon/lat was read
+    # while no face lon/lat was stored (only then does that getter populate anything)
+    stored_xyz = s.xyz["face"] is not None or 5 in pre or (2 in pre and s.ll["face"] is None)
+    s2 = Source.from_json(s.to_json())
+    s2.prov, s2.conv = dict(s.prov), dict(s.conv)
+    s2.tag = s.tag + f"+construct({method})"
+    cent = np.array([unit(s.centroid(f)) for f in s.faces]).reshape(-1, 3)
+    if method == "welzl":
+        t = xyz_of(W[0], W[1])
+        s2.truth["face"], s2.ll["face"], s2.xyz["face"] = t, (W[0].copy(), W[1].copy()), t.copy()
+        s2.prov["face"] = "welzl"
+        # the Welzl centre lies in the cap around the corner mean that contains every corner
+        for fi, f in enumerate(s.faces):
+            rad = max(math.acos(max(-1.0, min(1.0, float(cent[fi] @ s.truth["node"][v])))) for v in f)
+            if math.acos(max(-1.0, min(1.0, float(cent[fi] @ t[fi])))) > rad + 1e-9:
+                ctx.fail("C04/face/welzl-outside-face-cap", "the Welzl centre point lies outside the cap that contains the face's corners",
+                         inp, dict(face=fi, welzl=[float(W[0][fi]), float(W[1][fi])]), None, ["welzl-inside-cap"])
+                return
+    else:
+        t = s.truth["face"] if stored_xyz else cent
+        lon, lat = ll_of(t)
+        s2.truth["face"], s2.ll["face"] = t, (lon, lat)
+        s2.xyz["face"] = s.xyz["face"].copy() if s.xyz["face"] is not None else t.copy()
+        s2.prov["face"] = "recentred(" + ("stored-xyz" if stored_xyz else "corner-mean") + ")"
+    s2.conv["face"] = "±180"
+    sup = [int(s.xyz["node"] is not None), int(s.xyz["edge"] is not None), int(s.xyz["face"] is not None and method != "welzl")]
+    judge(ctx, s2, [2] + list(post), impl_runner=lambda ux: (g, "after-construct", impl2), inp_extra=extra, sup_override=sup)
+
+
+def irregular_source(rng):
+    """non-regular quads, a pentagon and a triangle at mid latitude, away from the seam and the poles
+    (the Welzl centre differs visibly from the corner mean)"""
+    lon0, lat0, d = rng.uniform(-140, 120), rng.uniform(-45, 35), rng.uniform(4.0, 9.0)
+    lon = np.array([lon0 + d * (i + rng.uniform(-0.3, 0.3)) for j in range(3) for i in range(3)])
+    lat = np.array([lat0 + d * (j + rng.uniform(-0.3, 0.3)) for j in range(3) for i in range(3)])
+    faces = [[0, 1, 4, 3], [1, 2, 5, 4], [3, 4, 8, 7, 6], [4, 5, 8]]
+    return "irregular", lon, lat, faces
 
 
 # --------------------------------------------------------------------------------------
@@ -682,7 +777,9 @@ def run(ctx):
     ctx.rule = ("sources = abstract meshes (harness/meshes.zoo + explicit lon/lat lists with poles, ±180, 0, snap-cap nodes, mixed face "
                 "sizes with an unused node numbered last / first) × numbering and coverage (unused nodes first / middle / last, node "
                 "ids kept / descending / shuffled, biggest face first / middle / last, one position under two ids) × element size "
-                "(lattice spacing log-uniform 1e-6..1 rad, fixed 0.01°/0.1°/0.5° at high latitude and across the antimeridian) "
+                "(lattice spacing log-uniform 1e-6..1 rad, fixed 0.01°/0.1°/0.5° at high latitude and across the antimeridian); "
+                "construct_face_centers('cartesian average' | 'welzl') between 0-3 pre-reads and a full permutation of reads on "
+                "irregular mid-latitude faces x every provenance (re-basing rule in the harness, not in the Lean state machine) "
                 "× provenance (node: lon/lat | xyz | both; edge, face: none | lon/lat | xyz | both; radii 1, 0.5, 2, 6371229; "
                 "supplied centres are perturbed off the centroid) × longitude convention per variable (±180 | 0..360) × "
                 "history (a permutation of the six getters, optional normalize_cartesian_coordinates(), two re-reads; "
@@ -690,6 +787,9 @@ def run(ctx):
                 "(SCRIP, Exodus, GEOS-CS, MPAS, UGRID) judged by the same Lean predicate against their own first Cartesian report; "
                 "corpus/C04 first; distinct = distinct (source, history)")
     ctx.assumptions = [
+        "construct_face_centers(): the Welzl centre itself is NOT modelled (judged: range, unit length, agreement of both representations "
+        "in all later reads, inside the corner cap); 'cartesian average' re-derives from stored xyz or re-centres on the corner mean; "
+        "histories with construct calls contain no normalize_cartesian_coordinates()",
         "IEEE rounding and libm (Lean's Float.sin/cos/atan2/asin vs NumPy's) are compared at 1e-12 on unit-vector components, not verified",
         "cases with a true position within 1e-10 of the snapping threshold |z| = 1 - 1e-8, or in the annulus 1e-8 <= 1-|z| < 1e-7 just outside it (arcsin conditioned worse than 1e-12), are dropped and counted; supplied lon/lat are generated with atan2(z, hypot(x,y))",
         "a source supplies lon with lat and x with y and z; node xyz have one common radius; centroids with |mean| < 1e-6 are not generated",
@@ -769,6 +869,20 @@ def run(ctx):
         ctx.hit("size@" + name.split("@")[1].split("+")[0])
         judge(ctx, s, history(rng))
 
+    # 2d. construct_face_centers(method) — both documented methods — inside histories, on irregular
+    #     faces with the face centres supplied in every form (× node and edge provenance)
+    for rep in range(ctx.n(2, 8)):
+        name, lon, lat, faces = irregular_source(rng)
+        for combo in all_combos(rng):
+            if rep and rng.random() < 0.5:
+                continue
+            s = make_source(rng, faces, xyz_of(lon, lat), name, combo, node_ll=(lon, lat))
+            if degenerate(s):
+                continue
+            pre = rng.sample(range(6), rng.choice([0, 1, 2, 3]))
+            post = rng.sample(range(6), 6)
+            judge_construct(ctx, s, pre, METHODS[(rep + len(pre) + rng.randrange(2)) % 2], post)
+
     # 2b. sample files through the real readers (float64 sources only)
     for fmt, rel in FILES:
         for _ in range(ctx.n(1, 4)):
@@ -807,6 +921,10 @@ def run(ctx):
 
 def replay(ctx, rp):
     inp = rp["input"]
+    if "construct" in inp:
+        c = inp["construct"]
+        judge_construct(ctx, Source.from_json(c["source"]), [int(o) for o in c["pre"]], c["method"], [int(o) for o in c["post"]])
+        return
     if "file" in inp:
         judge_file(ctx, inp["format"], inp["file"], [int(o) for o in inp["ops"]])
         return
